@@ -156,6 +156,9 @@ def check_program(ctx, name, prog, vm='mbuff', helpers=(), props=('C03',), fixed
                 cand('control-leaves-code', f'generated code ends at {xs_.ip}', None); continue
             pr.out['discharged'] += 1
             rr, m = pr.prove(f'{name}:return-address', both, xs_.ip[1] == Select(S.M0, rsp0) if False else BoolVal(True))
+            if not getattr(ctx, 'validated_' + name, False):
+                setattr(ctx, 'validated_' + name, True)
+                import validate; validate.validate(pr, ctx.drv, name, S, both, {'interp': v, 'jit': xs_.r['rax']}, prog, vm, helpers, fixed)
             rr, m = pr.prove(f'{name}:result', both, xs_.r['rax'] == v, sample=f'{name} ({vm}): RAX at the final ret = interpreter Ok(v), all packet/metadata contents')
             if rr == 'sat': cand('result', 'returned value differs from the interpreter', pr.refine(small, m), dict(got=xs_.r['rax'], want=v))
             rr, m = pr.prove(f'{name}:buffers', both + [in_bufs], Select(xs_.mem.arr, a_sym) == Select(ip_.st.mem, a_sym), sample=f'{name}: packet and metadata bytes after = interpreter')
@@ -219,6 +222,12 @@ def run_items(items, props, timeout_ms):
     for r in res:
         o = r['out']
         for k in ('obligations', 'discharged', 'solver_s', 'witnesses', 'twins', 'programs'): out[k] += o.get(k, 0)
+        if o.get('validation'):
+            x = out.setdefault('validation', dict(instances=0, agree=0, skipped=0))
+            for k in x: x[k] += o['validation'].get(k, 0)
+        if o.get('xcheck'):
+            x = out.setdefault('xcheck', dict(exported=0, agree=0, unknown=0, disagree=0))
+            for k in x: x[k] += o['xcheck'].get(k, 0)
         for k in ('inconclusive', 'nontrivial', 'errors'): out[k] += o.get(k, [])
         out['samples'] += o.get('samples', [])[:2]; out['functions'].update(o.get('functions', {}))
         cands += r['cands']
